@@ -47,6 +47,7 @@ type Verifier struct {
 	axiomTerms     []axiomTerm
 	axiomsReady    bool
 	tier           string
+	embedded       []string // files embedded by go:embed directives, relative to their package directory
 }
 
 type axiomTerm struct {
@@ -65,10 +66,11 @@ func NewVerifier(repo, verifDir string) (*Verifier, error) {
 		assumptions: map[string]bool{}, closureOf: map[string]*Closure{}, rangeOf: map[*ssa.Range]mapInfoT{}, mutatedGlobals: map[string]bool{},
 		fnByKey: map[string]*ssa.Function{}, keyOfFn: map[*ssa.Function]string{}, writeSets: map[*ssa.Function]*wsResult{}, sites: map[*ssa.Function]map[ssa.Instruction][]string{},
 		sentinels: map[string]bool{}}
+	theLits = v.lits
 	v.prelude = Prelude() + `(define-fun godiv ((x Int) (y Int)) Int (ite (>= x 0) (ite (> y 0) (div x y) (- (div x (- y)))) (ite (> y 0) (- (div (- x) y)) (div (- x) (- y)))))
 (define-fun gomod ((x Int) (y Int)) Int (- x (* y (godiv x y))))
 `
-	cfg := &packages.Config{Mode: packages.LoadAllSyntax, Dir: repo, BuildFlags: []string{"-tags=verif"}, Env: append(os.Environ(), "GOFLAGS=-mod=mod", "GOPROXY=off", "GOSUMDB=off", "GOTOOLCHAIN=local")}
+	cfg := &packages.Config{Mode: packages.LoadAllSyntax | packages.NeedEmbedFiles, Dir: repo, BuildFlags: []string{"-tags=verif"}, Env: append(os.Environ(), "GOFLAGS=-mod=mod", "GOPROXY=off", "GOSUMDB=off", "GOTOOLCHAIN=local")}
 	pkgs, err := packages.Load(cfg, "./...")
 	if err != nil {
 		return nil, err
@@ -112,7 +114,14 @@ func NewVerifier(repo, verifDir string) (*Verifier, error) {
 			}
 		}
 		v.scanSentinels(p)
+		for _, ef := range p.EmbedFiles {
+			dir := filepath.Dir(p.GoFiles[0])
+			if rel, err := filepath.Rel(dir, ef); err == nil {
+				v.embedded = append(v.embedded, rel)
+			}
+		}
 	}
+	sort.Strings(v.embedded)
 	specFiles, _ := filepath.Glob(filepath.Join(verifDir, "spec", "*.spec"))
 	sort.Strings(specFiles)
 	for _, sf := range specFiles {
@@ -665,8 +674,14 @@ func (v *Verifier) goTypeByName(e *Env, t string) types.Type {
 		return types.NewSlice(types.Typ[types.String])
 	case "[][]byte":
 		return types.NewSlice(types.NewSlice(types.Typ[types.Uint8]))
-	case "ref", "error", "any":
+	case "ref", "error":
 		return nil
+	case "any", "interface{}":
+		return types.NewInterfaceType(nil, nil)
+	case "float64":
+		return types.Typ[types.Float64]
+	case "[]interface{}", "[]any":
+		return types.NewSlice(types.NewInterfaceType(nil, nil))
 	}
 	slice := false
 	if strings.HasPrefix(t, "[]") {
@@ -724,6 +739,12 @@ func (v *Verifier) prepareAxioms(c *Ctx) {
 		return
 	}
 	v.axiomsReady = true
+	if _, ok := v.specs.Specs["embedded"]; ok {
+		// ground facts extracted from the go:embed directives and the directory listing of the current tree
+		for _, f := range v.embedded {
+			v.axiomTerms = append(v.axiomTerms, axiomTerm{name: "embedded:" + f, smt: fmt.Sprintf("(sp_embedded %s)", v.lits.Bytes(f).S), src: "embedded(" + f + ") [from go:embed]"})
+		}
+	}
 	for i, ax := range v.specs.Axioms {
 		st := newState()
 		env := &Env{c: c, vars: map[string]Val{}, cur: st, old: st}
